@@ -308,7 +308,8 @@ impl DiagnosticInfoMessage {
                 format!("Internal Error: {err}")
             }
             DiagnosticInfoMessage::InterfaceExtendsItself => {
-                "An interface cannot extend itself, directly or through other declarations".to_string()
+                "An interface or intersection cannot contain itself, directly or through other declarations"
+                    .to_string()
             }
             DiagnosticInfoMessage::TypeInstantiationTooDeep => {
                 "Type instantiation is excessively deep and possibly infinite".to_string()
